@@ -72,6 +72,9 @@ type input struct {
 	HistLimit   int       `json:"histlimit"` // aggregator histogram bucket limit
 	SlowShard   int       `json:"slowshard"`
 	SlowMicros  int       `json:"slowus"` // > 0: worker SlowShard sleeps this long in every ReceiveMap
+	IgnoreHost  bool      `json:"ignorehost"` // parser configuration, as an operator can set it
+	Namespace   string    `json:"namespace"`
+	EstTags     int       `json:"esttags"`
 	CopyMicros  int       `json:"copyus"` // > 0: the backend is slow: it reads the map it is handed this long after the call (still inside SendMetricsAsync)
 	Sched       uint64    `json:"sched"`
 	Batches     [][]dgram `json:"batches"`
